@@ -10,8 +10,20 @@ import threading
 
 from . import absx
 
-TRANSIENT = {"timeout": TimeoutError, "runtime": RuntimeError}
-FATAL = {"value": ValueError, "zero": ZeroDivisionError, "key": KeyError}
+class _SimulationTimeout(TimeoutError):
+    """user-defined subclasses of the two transient types are transient too"""
+
+
+class _SolverDiverged(RuntimeError):
+    pass
+
+
+TRANSIENT = {"timeout": TimeoutError, "runtime": RuntimeError, "timeout-sub": _SimulationTimeout, "runtime-sub": _SolverDiverged,
+             "recursion": RecursionError, "notimplemented": NotImplementedError}       # the last two are RuntimeError subclasses
+# "any other exception": also the relatives of TimeoutError in the OSError family, and other common failures of a simulation
+FATAL = {"value": ValueError, "zero": ZeroDivisionError, "key": KeyError, "oserror": OSError, "filenotfound": FileNotFoundError,
+         "permission": PermissionError, "connreset": ConnectionResetError, "type": TypeError, "assertion": AssertionError,
+         "memory": MemoryError, "overflow": OverflowError, "exception": Exception}
 
 
 def fp_costs(vector, m):
@@ -40,6 +52,8 @@ class Rec:
         self.bounds = bounds or [[-5.0, 5.0]] * dim
         self.criteria = criteria or ["minimize"] * m
         self.constrained = constrained
+        self.vary_return = True
+        self.handed_out = {}         # design -> the very object the objective returned last (must not be modified by the framework)
         self.script = script or (lambda k, attempt, callno: "ok")
         self.gate = gate
         self.lock = threading.RLock()
@@ -82,9 +96,9 @@ class Rec:
 
     def cf_of(self, ind):
         """key of the vector the stored costs were computed from (-1: none of the vectors seen)"""
-        if not ind.costs:
+        if ind.costs is None or len(ind.costs) == 0:
             return 0
-        want = list(ind.costs)          # the WHOLE stored cost list must be what the objective returned (no extra entries)
+        want = [float(c) for c in ind.costs]          # the WHOLE stored cost list must be what the objective returned (no extra entries)
         if [n / 1e9 for n in fp_costs(ind.vector, self.m)] == want:
             return self.vkey(ind.vector)
         for t, k in list(self.vkeys.items()):
@@ -125,7 +139,16 @@ class Rec:
                 self.attempt[k] = 0
                 self.returned[k] = fp_costs(individual.vector, self.m)
                 self.events.append({"ev": "ret", "k": k, "out": "ok"})
-                return [n / 1e9 for n in self.returned[k]]
+                vals = [n / 1e9 for n in self.returned[k]]
+                # the objective may hand its costs back as a list, a tuple or a float64 array (and keeps a reference to what it returned)
+                shape = (k + callno) % 5 if self.vary_return else 0
+                if shape == 3:
+                    vals = tuple(vals)
+                elif shape == 4:
+                    import numpy as np
+                    vals = np.array(vals, dtype=float)
+                self.handed_out[k] = vals
+                return vals
             if out in TRANSIENT:
                 self.attempt[k] = 0 if att + 1 >= 5 else att + 1
                 self.events.append({"ev": "ret", "k": k, "out": "transient"})
